@@ -23,16 +23,15 @@ import Mathlib.Tactic.SplitIfs
     (`Health.judge27`, the function the check runs on the implementation's
     output; it sees the history and the up/down trace only and keeps its own
     count of consecutive successful rounds) accepts the model on every
-    history, except for one class that only arises under the hard policy in a
-    replica round during which the master is down (`_witness`, known/C27.json).
-  * `c27_gradual_holds` — full strength for the gradual policy: no violation.
-  * `c27_spec_holds_master_up_partial` — no violation on histories whose
-    replica rounds all see the master up.
-  * readable consequences: `hard_not_restored_before_cooldown_partial`,
-    `hard_restored_after_cooldown`, `gradual_restored_only_at_zero`,
-    `gradual_bad_fuse_sets_penalty`, `gradual_fuse_long_after_recovery_resets`,
-    `gradual_countdown`, `gradual_restored_after_countdown`,
-    `gradual_failed_probe_rearms`, `penalty_grows`, `penalty_capped`.
+    history: no violation, whatever the master's state (the master-down
+    branches of backend/slice.go were repaired: fixes 4cba6eb, 5e8b660, 87be324).
+  * readable consequences: `hard_not_restored_before_cooldown`,
+    `hard_restore_requires_cooldown`, `hard_restored_after_cooldown`,
+    `gradual_restored_only_at_zero`, `gradual_bad_fuse_sets_penalty`,
+    `gradual_fuse_long_after_recovery_resets`, `gradual_countdown`,
+    `gradual_restored_after_countdown`, `gradual_failed_probe_rearms`,
+    `penalty_grows`, `penalty_capped`; `hard_cooldown_master_down_repaired`
+    replays the old failing input.
 -/
 namespace GaeaVerif.C27
 open GaeaVerif GaeaVerif.Health
@@ -94,15 +93,12 @@ def Rel27 (c : Cfg) (s : St) (g : G27) : Prop :=
     s.erc = g.n ∧ s.lastRec = g.lastRec ∧ 3 ≤ g.n ∧ 0 ≤ s.cscc ∧ (s.rep.up = true → s.cscc = 0) ∧
     (g.fusedDown = true → g.need - g.good ≤ s.cscc ∧ (s.cscc = 0 ∨ s.cscc ≤ g.need - g.sure)))
 
-/-- The listed class. -/
-def Known27 (v : Viol27) : Prop := v = .hardRestoredInCooldownMasterDown
-
 theorem rel27_init (c : Cfg) (t0 : Int) : Rel27 c (St.init t0) (G27.init t0) := by
   simp [Rel27, St.init, G27.init, initErrorRecoveryCount]
 
 theorem step27_replica_hard (c : Cfg) (hs : c.sbm < 9223372036854775808) (hpol : c.policy = .hard)
     (s : St) (g : G27) (now : Int) (p : Probe) (q : SlaveQ) (h : Rel27 c s g) :
-    (∀ v ∈ (judgeReplica27 c g now p q (checkWithHardRecovery c s now p q).obs).1, Known27 v ∧ masterDown c s = true) ∧
+    (judgeReplica27 c g now p q (checkWithHardRecovery c s now p q).obs).1 = [] ∧
     Rel27 c (checkWithHardRecovery c s now p q) (judgeReplica27 c g now p q (checkWithHardRecovery c s now p q).obs).2 := by
   obtain ⟨r1, r2, r3, r4, r5, r6⟩ := h
   have hgood := syncSpec_good_alive c.sbm q (probeOk c p) hs
@@ -116,18 +112,15 @@ theorem step27_replica_hard (c : Cfg) (hs : c.sbm < 9223372036854775808) (hpol :
   cases hok : probeOk c p <;> cases hsy : syncSpec c.sbm q <;> cases hal : checkSlaveSyncStatus (probeOk c p) c.sbm q <;>
     cases hm : c.hasMaster <;> cases gm <;> cases gr <;> cases gfd <;>
     simp [judgeReplica27, judgeEarly27, recoveryDue, earlyViol, G27.observe, St.obs, lastOkAfter, hok, hm, Rel27, hsy,
-      masterDown, obsMasterDown, hpol, Known27] <;>
-    (try split_ifs) <;> (try simp_all) <;> (try omega) <;>
-    (try (refine ⟨fun v => ⟨fun _ => ?_, fun _ => ?_⟩, fun _ => ?_⟩ <;> omega))
+      masterDown, obsMasterDown, hpol, syncAlive] <;>
+    (try split_ifs) <;> (try simp_all) <;> (try omega)
 
-theorem step27_replica_gradual (c : Cfg) (hs : c.sbm < 9223372036854775808) (hpol : c.policy = .gradual)
-    (s : St) (g : G27) (now : Int) (p : Probe) (q : SlaveQ) (h : Rel27 c s g) :
+/-- Gradual policy, the probe failed. -/
+theorem step27_replica_gradual_fail (c : Cfg) (hpol : c.policy = .gradual)
+    (s : St) (g : G27) (now : Int) (p : Probe) (q : SlaveQ) (h : Rel27 c s g) (hok : probeOk c p = false) :
     (judgeReplica27 c g now p q (checkWithGradualRecovery c s now p q).obs).1 = [] ∧
     Rel27 c (checkWithGradualRecovery c s now p q) (judgeReplica27 c g now p q (checkWithGradualRecovery c s now p q).obs).2 := by
   obtain ⟨r1, r2, r3, r4, r5, r6⟩ := h
-  have hgood := syncSpec_good_alive c.sbm q (probeOk c p) hs
-  have hbad := syncSpec_bad_dead c.sbm q hs
-  have hno := checkSlaveSyncStatus_noconn c.sbm q
   obtain ⟨r6a, r6b, r6c, r6d, r6e, r6f⟩ := r6 hpol
   have hpen := penalty_nonneg g.n (by omega)
   rw [gradualRecovery_round]
@@ -135,11 +128,76 @@ theorem step27_replica_gradual (c : Cfg) (hs : c.sbm < 9223372036854775808) (hpo
   obtain ⟨gr, gm, gor, gfd, gfa, glt, gn, gneed, ggood, gsure, glr⟩ := g
   simp only at r1 r2 r3 r4 r6a r6b r6c r6d r6e r6f hpen
   subst r1 r2 r3 r6a r6b
-  cases hok : probeOk c p <;> cases hsy : syncSpec c.sbm q <;> cases hal : checkSlaveSyncStatus true c.sbm q <;>
+  cases gr <;> cases gfd <;>
+    simp [judgeReplica27, judgeEarly27, recoveryDue, G27.observe, St.obs, lastOkAfter, hok, Rel27,
+      hpol, gradualAsks, syncAlive_noconn] <;>
+    (try simp_all)
+
+/-- How the spec's classification of the `show slave status` answer and the
+    result of checkSlaveSyncStatus on a live connection can go together. -/
+theorem sync_cases (c : Cfg) (hs : c.sbm < 9223372036854775808) (q : SlaveQ) :
+    (syncSpec c.sbm q = .good ∧ checkSlaveSyncStatus true c.sbm q = true) ∨
+    (syncSpec c.sbm q = .bad ∧ checkSlaveSyncStatus true c.sbm q = false) ∨
+    (syncSpec c.sbm q = .unspecified ∧ checkSlaveSyncStatus true c.sbm q = true) ∨
+    (syncSpec c.sbm q = .unspecified ∧ checkSlaveSyncStatus true c.sbm q = false) := by
+  have hgood := syncSpec_good_alive c.sbm q true hs
+  have hbad := syncSpec_bad_dead c.sbm q hs
+  cases hsy : syncSpec c.sbm q <;> cases hal : checkSlaveSyncStatus true c.sbm q <;> simp_all
+
+/-- Gradual policy, the probe passed, the replica is down and was taken down by the breaker:
+    the round uses up one unit of the count, or restores the replica at 0 — also while the
+    master is down. -/
+theorem step27_replica_gradual_fused (c : Cfg) (hs : c.sbm < 9223372036854775808) (hpol : c.policy = .gradual)
+    (s : St) (g : G27) (now : Int) (p : Probe) (q : SlaveQ) (h : Rel27 c s g) (hok : probeOk c p = true)
+    (hgr : g.rep = false) (hfd : g.fusedDown = true) :
+    (judgeReplica27 c g now p q (checkWithGradualRecovery c s now p q).obs).1 = [] ∧
+    Rel27 c (checkWithGradualRecovery c s now p q) (judgeReplica27 c g now p q (checkWithGradualRecovery c s now p q).obs).2 := by
+  obtain ⟨r1, r2, r3, r4, r5, r6⟩ := h
+  have hsa := sync_cases c hs q
+  obtain ⟨r6a, r6b, r6c, r6d, r6e, r6f⟩ := r6 hpol
+  have hpen := penalty_nonneg g.n (by omega)
+  rw [gradualRecovery_round]
+  obtain ⟨⟨mu, ml⟩, ⟨ru, rl⟩, lf, erc, cscc, lr⟩ := s
+  obtain ⟨gr, gm, gor, gfd, gfa, glt, gn, gneed, ggood, gsure, glr⟩ := g
+  simp only at r1 r2 r3 r4 r6a r6b r6c r6d r6e r6f hpen hgr hfd
+  subst r1 r2 r3 r6a r6b hfd
+  subst hgr
+  simp only [forall_const] at r6f
+  rcases hsa with ⟨hsy, hal⟩ | ⟨hsy, hal⟩ | ⟨hsy, hal⟩ | ⟨hsy, hal⟩ <;>
+    cases hm : c.hasMaster <;> cases gm <;>
+      simp [judgeReplica27, judgeEarly27, recoveryDue, earlyViol, G27.observe, St.obs, lastOkAfter, hok, hm, Rel27, hsy,
+        masterDown, obsMasterDown, hpol, gradualAsks, hal, syncAlive] <;>
+      (try split_ifs) <;> (try simp_all) <;> (try omega)
+
+/-- Gradual policy, the probe passed, the replica is up or was not taken down by the breaker. -/
+theorem step27_replica_gradual_unfused (c : Cfg) (hs : c.sbm < 9223372036854775808) (hpol : c.policy = .gradual)
+    (s : St) (g : G27) (now : Int) (p : Probe) (q : SlaveQ) (h : Rel27 c s g) (hok : probeOk c p = true)
+    (hnf : ¬(g.rep = false ∧ g.fusedDown = true)) :
+    (judgeReplica27 c g now p q (checkWithGradualRecovery c s now p q).obs).1 = [] ∧
+    Rel27 c (checkWithGradualRecovery c s now p q) (judgeReplica27 c g now p q (checkWithGradualRecovery c s now p q).obs).2 := by
+  obtain ⟨r1, r2, r3, r4, r5, r6⟩ := h
+  have hsa := sync_cases c hs q
+  obtain ⟨r6a, r6b, r6c, r6d, r6e, r6f⟩ := r6 hpol
+  rw [gradualRecovery_round]
+  obtain ⟨⟨mu, ml⟩, ⟨ru, rl⟩, lf, erc, cscc, lr⟩ := s
+  obtain ⟨gr, gm, gor, gfd, gfa, glt, gn, gneed, ggood, gsure, glr⟩ := g
+  simp only at r1 r2 r3 r4 r6a r6b r6c r6d r6e r6f hnf
+  subst r1 r2 r3 r6a r6b
+  rcases hsa with ⟨hsy, hal⟩ | ⟨hsy, hal⟩ | ⟨hsy, hal⟩ | ⟨hsy, hal⟩ <;>
     cases hm : c.hasMaster <;> cases gm <;> cases gr <;> cases gfd <;>
-    simp [judgeReplica27, judgeEarly27, recoveryDue, earlyViol, G27.observe, St.obs, lastOkAfter, hok, hm, Rel27, hsy,
-      masterDown, obsMasterDown, hpol, gradualAsks, hno, hal] <;>
-    (try split_ifs) <;> (try simp_all) <;> (try omega)
+      simp [judgeReplica27, G27.observe, St.obs, lastOkAfter, hok, hm, Rel27, hsy,
+        masterDown, hpol, gradualAsks, hal, syncAlive] <;>
+      (try split_ifs) <;> (try simp_all) <;> (try omega)
+
+theorem step27_replica_gradual (c : Cfg) (hs : c.sbm < 9223372036854775808) (hpol : c.policy = .gradual)
+    (s : St) (g : G27) (now : Int) (p : Probe) (q : SlaveQ) (h : Rel27 c s g) :
+    (judgeReplica27 c g now p q (checkWithGradualRecovery c s now p q).obs).1 = [] ∧
+    Rel27 c (checkWithGradualRecovery c s now p q) (judgeReplica27 c g now p q (checkWithGradualRecovery c s now p q).obs).2 := by
+  cases hok : probeOk c p
+  · exact step27_replica_gradual_fail c hpol s g now p q h hok
+  · by_cases hf : g.rep = false ∧ g.fusedDown = true
+    · exact step27_replica_gradual_fused c hs hpol s g now p q h hok hf.1 hf.2
+    · exact step27_replica_gradual_unfused c hs hpol s g now p q h hok hf
 
 theorem step27_replica_none (c : Cfg) (hpol : c.policy = .none)
     (s : St) (g : G27) (now : Int) (p : Probe) (q : SlaveQ) (h : Rel27 c s g) :
@@ -153,7 +211,7 @@ theorem step27_replica_none (c : Cfg) (hpol : c.policy = .none)
   subst r1 r2 r3
   cases hok : probeOk c p <;> cases gr <;> cases gfd <;> cases hm : c.hasMaster <;> cases gm <;>
     cases hal : checkSlaveSyncStatus (probeOk c p) c.sbm q <;>
-    simp [judgeReplica27, G27.observe, St.obs, lastOkAfter, hok, Rel27, hpol, masterDown, hm] <;>
+    simp [judgeReplica27, G27.observe, St.obs, lastOkAfter, hok, Rel27, hpol, masterDown, hm, syncAlive] <;>
     (try split_ifs) <;> (try simp_all)
 
 theorem step27_fuse (c : Cfg) (s : St) (g : G27) (now : Int) (ce tr : Bool) (h : Rel27 c s g) :
@@ -193,72 +251,53 @@ theorem step27_other (c : Cfg) (s s' : St) (g : G27) (now : Int) (h : Rel27 c s 
   subst r1 r2 r3 h1 h2 hf he hc hl
   cases ru' <;> cases gfd <;> simp [judgeEarly27, G27.observe, St.obs, Rel27] <;> simp_all
 
-/-- One step: every violation the judge reports on the model's own step is the
-    listed class and arises under the hard policy in a replica round with the
-    master down; the ghost state keeps describing the model state. -/
+/-- One step: the judge reports nothing on the model's own step, and its ghost
+    state keeps describing the model state. -/
 theorem step27 (c : Cfg) (hs : c.sbm < 9223372036854775808) (s : St) (g : G27) (e : Ev) (h : Rel27 c s g) :
-    (∀ v ∈ (judgeStep27 c g e (step c s e).obs).1,
-        Known27 v ∧ c.policy = .hard ∧ ∃ now p q, e = .replica now p q ∧ masterDown c s = true) ∧
+    (judgeStep27 c g e (step c s e).obs).1 = [] ∧
     Rel27 c (step c s e) (judgeStep27 c g e (step c s e).obs).2 := by
   cases e with
   | master now p =>
     have hm := master_round c s now p
-    have := step27_other c s (checkBackendMasterStatus c s now p) g now h
+    exact step27_other c s (checkBackendMasterStatus c s now p) g now h
       (by rw [hm]; split <;> rfl) (by rw [hm]; split <;> rfl) (by rw [hm]; split <;> rfl)
       (by rw [hm]; split <;> rfl) (by rw [hm]; split <;> rfl)
-    simp only [judgeStep27, step]
-    rw [this.1]
-    exact ⟨by simp, this.2⟩
   | replica now p q =>
     simp only [judgeStep27, step, tryRecover]
     cases hpol : c.policy
-    · have := step27_replica_none c hpol s g now p q h
-      simp only
-      rw [this.1]
-      exact ⟨by simp, this.2⟩
-    · have := step27_replica_hard c hs hpol s g now p q h
-      simp only
-      exact ⟨fun v hv => ⟨(this.1 v hv).1, by first | rfl | trivial, now, p, q, rfl, (this.1 v hv).2⟩, this.2⟩
-    · have := step27_replica_gradual c hs hpol s g now p q h
-      simp only
-      rw [this.1]
-      exact ⟨by simp, this.2⟩
-  | fuse now ce tr =>
-    have := step27_fuse c s g now ce tr h
-    simp only [judgeStep27, step]
-    rw [this.1]
-    exact ⟨by simp, this.2⟩
-  | tick now =>
-    have := step27_other c s s g now h rfl rfl rfl rfl rfl
-    simp only [judgeStep27, step]
-    rw [this.1]
-    exact ⟨by simp, this.2⟩
+    · exact step27_replica_none c hpol s g now p q h
+    · exact step27_replica_hard c hs hpol s g now p q h
+    · exact step27_replica_gradual c hs hpol s g now p q h
+  | fuse now ce tr => exact step27_fuse c s g now ce tr h
+  | tick now => exact step27_other c s s g now h rfl rfl rfl rfl rfl
 
 theorem judge27_trace (c : Cfg) (hs : c.sbm < 9223372036854775808) :
     ∀ (evs : List Ev) (s : St) (g : G27), Rel27 c s g →
-      ∀ v ∈ judge27 c g evs ((trace c s evs).map St.obs), Known27 v ∧ c.policy = .hard := by
+      judge27 c g evs ((trace c s evs).map St.obs) = [] := by
   intro evs
   induction evs with
-  | nil => intro s g _ v hv; simp [judge27] at hv
+  | nil => intro s g _; simp [judge27]
   | cons e es ih =>
-    intro s g h v hv
-    simp only [trace, List.map_cons, judge27, List.mem_append] at hv
+    intro s g h
+    simp only [trace, List.map_cons, judge27]
     have hst := step27 c hs s g e h
-    rcases hv with hv | hv
-    · exact ⟨(hst.1 v hv).1, (hst.1 v hv).2.1⟩
-    · exact ih _ _ hst.2 v hv
+    rw [hst.1, ih _ _ hst.2]
+    rfl
 
 /-! ### main theorems -/
 
 /-- **C27 on every history.**  For every configuration (with `secondsBehindMaster`
     a Go `int`), start time and history of breaker firings, replica rounds,
-    master rounds and clock steps, the reference semantics of the property
-    accepts the statuses the model produces — no restore before the cool-down /
-    before the required number of consecutive successful rounds, and a restore
-    as soon as the condition holds and the round succeeds — except for the one
-    listed class, which needs the hard policy. -/
+    master rounds and clock steps — whatever the master's state during the
+    replica rounds — the reference semantics of the property accepts the
+    statuses the model produces: no restore before the cool-down / before the
+    required number of consecutive successful rounds, and a restore as soon as
+    the condition holds and the round succeeds.  No violation, no exception
+    (the class `hard-restored-in-cooldown-master-down` of the pinned code was
+    repaired by fix 5e8b660, the missing restore under the gradual policy during
+    a master outage by fix 87be324). -/
 theorem c27_spec_holds (c : Cfg) (hs : c.sbm < 9223372036854775808) (t0 : Int) (evs : List Ev) :
-    ∀ v ∈ judge27 c (G27.init t0) evs ((trace c (St.init t0) evs).map St.obs), Known27 v ∧ c.policy = .hard :=
+    judge27 c (G27.init t0) evs ((trace c (St.init t0) evs).map St.obs) = [] :=
   judge27_trace c hs evs _ _ (rel27_init c t0)
 
 example : ∃ c : Cfg, c.sbm < 9223372036854775808 ∧ c.policy = .hard := ⟨⟨true, 30, 12, 5, true, true⟩, by decide, by decide⟩
@@ -273,6 +312,24 @@ example :
     judge27 c (G27.init 1000) evs [⟨false, true⟩, ⟨false, true⟩, ⟨false, true⟩] = [.hardNotRestoredAfterCooldown] ∧
     judge27 c (G27.init 1000) evs [⟨false, true⟩, ⟨false, true⟩, ⟨true, true⟩] = [] := by decide
 
+/-- … the same during a master outage (master marked down at 1012, also without a
+    master node at all): up inside the cool-down is rejected, still down after a
+    successful round past it is rejected, and so is coming up on a failed probe
+    past the cool-down being demanded — it is not: a failed probe demands nothing. -/
+example :
+    let c : Cfg := ⟨true, 10, 32, 5, false, true⟩
+    let evs : List Ev := [.master 1032 ⟨.err, []⟩, .fuse 1033 true true,
+      .replica 1034 ⟨.conn, []⟩ (.row (.u64 0) (.str "Yes") (.str "Yes")),
+      .replica 1043 ⟨.conn, []⟩ (.row (.u64 0) (.str "Yes") (.str "Yes")),
+      .replica 1047 ⟨.err, []⟩ .empty]
+    judge27 c (G27.init 1000) evs [⟨true, false⟩, ⟨false, false⟩, ⟨true, false⟩, ⟨true, false⟩, ⟨true, false⟩]
+      = [.hardRestoredInCooldownMasterDown] ∧
+    judge27 c (G27.init 1000) evs [⟨true, false⟩, ⟨false, false⟩, ⟨false, false⟩, ⟨false, false⟩, ⟨false, false⟩]
+      = [.hardNotRestoredAfterCooldown] ∧
+    judge27 c (G27.init 1000) evs [⟨true, false⟩, ⟨false, false⟩, ⟨false, false⟩, ⟨true, false⟩, ⟨true, false⟩] = [] ∧
+    (trace c (St.init 1000) evs).map St.obs = [⟨true, false⟩, ⟨false, false⟩, ⟨false, false⟩, ⟨true, false⟩, ⟨true, false⟩] := by
+  decide
+
 /-- … and under the gradual policy a restore after 9 of the 10 required rounds,
     or no restore at the 11th. -/
 example :
@@ -285,20 +342,28 @@ example :
     judge27 c (G27.init 1000) evs (List.replicate 12 down) = [.gradualNotRestoredAfterPenalty] ∧
     judge27 c (G27.init 1000) evs (List.replicate 11 down ++ [up]) = [] := by decide
 
-/-- **C27 for the gradual policy, full strength**: on every history the
-    reference semantics reports no violation — a replica taken down by the
-    breaker comes up exactly when the required number of consecutive successful
-    rounds has been seen, the requirement being `penalty n` with `n` growing by
-    one for each fuse at most `2·PingPeriod` after the previous restore and
-    reset otherwise. -/
-theorem c27_gradual_holds (c : Cfg) (hp : c.policy = .gradual) (hs : c.sbm < 9223372036854775808)
+/-- … the same with no master node at all (every replica round is a "master down" round). -/
+example :
+    let c : Cfg := ⟨true, 0, 12, 0, false, false⟩
+    let evs : List Ev := .fuse 1004 true true ::
+      (List.range 11).map fun (i : Nat) => Ev.replica (1008 + 4 * (i : Int)) ⟨.conn, []⟩ .empty
+    let down : Obs := ⟨false, true⟩
+    let up : Obs := ⟨true, true⟩
+    judge27 c (G27.init 1000) evs (List.replicate 10 down ++ [up, up]) = [.gradualRestoredBeforePenaltyMasterDown] ∧
+    judge27 c (G27.init 1000) evs (List.replicate 12 down) = [.gradualNotRestoredAfterPenalty] ∧
+    judge27 c (G27.init 1000) evs (List.replicate 11 down ++ [up]) = [] ∧
+    (trace c (St.init 1000) evs).map St.obs = List.replicate 11 down ++ [up] := by decide
+
+/-- **C27 for the gradual policy** (instance of `c27_spec_holds`, kept for its
+    wording): on every history the reference semantics reports no violation — a
+    replica taken down by the breaker comes up exactly when the required number
+    of consecutive successful rounds has been seen, the requirement being
+    `penalty n` with `n` growing by one for each fuse at most `2·PingPeriod`
+    after the previous restore and reset otherwise. -/
+theorem c27_gradual_holds (c : Cfg) (_hp : c.policy = .gradual) (hs : c.sbm < 9223372036854775808)
     (t0 : Int) (evs : List Ev) :
-    judge27 c (G27.init t0) evs ((trace c (St.init t0) evs).map St.obs) = [] := by
-  apply List.eq_nil_iff_forall_not_mem.mpr
-  intro v hv
-  have := (c27_spec_holds c hs t0 evs v hv).2
-  rw [hp] at this
-  cases this
+    judge27 c (G27.init t0) evs ((trace c (St.init t0) evs).map St.obs) = [] :=
+  c27_spec_holds c hs t0 evs
 
 example : (⟨true, 0, 12, 5, false, true⟩ : Cfg).policy = .gradual := by decide
 
@@ -313,48 +378,6 @@ example :
       [(false, 10), (false, 9), (false, 8), (false, 7), (false, 6), (false, 5), (false, 4), (false, 3),
        (false, 2), (false, 1), (false, 0), (true, 0)] := by
   decide
-
-/-- Every replica round of the history sees the master up. -/
-def masterUpAtReplicaRounds (c : Cfg) : St → List Ev → Bool
-  | _, [] => true
-  | s, e :: es =>
-    (match e with
-     | .replica _ _ _ => !masterDown c s
-     | _ => true) && masterUpAtReplicaRounds c (step c s e) es
-
-theorem judge27_trace_master_up (c : Cfg) (hs : c.sbm < 9223372036854775808) :
-    ∀ (evs : List Ev) (s : St) (g : G27), Rel27 c s g → masterUpAtReplicaRounds c s evs = true →
-      judge27 c g evs ((trace c s evs).map St.obs) = [] := by
-  intro evs
-  induction evs with
-  | nil => intro s g _ _; simp [judge27]
-  | cons e es ih =>
-    intro s g h hm
-    simp only [trace, List.map_cons, judge27]
-    have hst := step27 c hs s g e h
-    have h1 : (judgeStep27 c g e (step c s e).obs).1 = [] := by
-      apply List.eq_nil_iff_forall_not_mem.mpr
-      intro v hv
-      obtain ⟨_, _, now, p, q, he, hd⟩ := hst.1 v hv
-      subst he
-      simp [masterUpAtReplicaRounds, hd] at hm
-    have h2 : masterUpAtReplicaRounds c (step c s e) es = true := by
-      simp only [masterUpAtReplicaRounds, Bool.and_eq_true] at hm
-      exact hm.2
-    rw [h1, ih _ _ hst.2 h2]
-    rfl
-
-/-- **C27 while the master is up** (`_partial`: the hypothesis excludes replica
-    rounds that run while the master is down; without it the statement is false
-    of the pinned code under the hard policy, see
-    `hard_restored_in_cooldown_master_down_witness`). -/
-theorem c27_spec_holds_master_up_partial (c : Cfg) (hs : c.sbm < 9223372036854775808) (t0 : Int) (evs : List Ev)
-    (hm : masterUpAtReplicaRounds c (St.init t0) evs = true) :
-    judge27 c (G27.init t0) evs ((trace c (St.init t0) evs).map St.obs) = [] :=
-  judge27_trace_master_up c hs evs _ _ (rel27_init c t0) hm
-
-example : masterUpAtReplicaRounds ⟨true, 30, 12, 0, false, true⟩ (St.init 1000)
-    [.fuse 1004 true true, .replica 1008 ⟨.conn, []⟩ .empty, .replica 1040 ⟨.conn, []⟩ .empty] = true := by decide
 
 /-! ### hard policy, in words -/
 
@@ -392,16 +415,14 @@ theorem run_append (c : Cfg) (s : St) (es : List Ev) (e : Ev) :
   | nil => rfl
   | cons x xs ih => simp [run, ih]
 
-/-- **Hard policy: no restore before the cool-down** (`_partial`: while the master
-    is up).  Whatever the history: if the replica is down after it and the next
-    replica round — run while the master is up — marks it up, then at least
-    `FuseCooldownPeriod` seconds have passed since the latest firing of the
-    breaker in that history (every firing counts, also one that hit the replica
-    while it was already down). -/
-theorem hard_not_restored_before_cooldown_partial (c : Cfg) (hp : c.policy = .hard) (t0 : Int) (evs : List Ev)
+/-- **Hard policy: no restore before the cool-down.**  Whatever the history and
+    whatever the master's state: if the replica is down after it and the next
+    replica round marks it up, then at least `FuseCooldownPeriod` seconds have
+    passed since the latest firing of the breaker in that history (every firing
+    counts, also one that hit the replica while it was already down). -/
+theorem hard_not_restored_before_cooldown (c : Cfg) (hp : c.policy = .hard) (t0 : Int) (evs : List Ev)
     (now : Int) (p : Probe) (q : SlaveQ)
     (hdown : (run c (St.init t0) evs).rep.up = false)
-    (hmu : masterDown c (run c (St.init t0) evs) = false)
     (hup : (run c (St.init t0) (evs ++ [.replica now p q])).rep.up = true) :
     now ≥ latestFuse c 0 evs + c.cooling := by
   have hl := run_lastFuse_hard c hp evs (St.init t0)
@@ -409,40 +430,51 @@ theorem hard_not_restored_before_cooldown_partial (c : Cfg) (hp : c.policy = .ha
   rw [h0] at hl
   rw [← hl]
   rw [run_append] at hup
-  revert hup hdown hmu
+  revert hup hdown
   generalize run c (St.init t0) evs = s
-  intro hdown hmu
-  simp only [step, tryRecover, hp, hardRecovery_round, hmu, hdown]
+  intro hdown
+  simp only [step, tryRecover, hp, hardRecovery_round, hdown]
   cases hok : probeOk c p <;> simp [lastOkAfter]
 
-/-- The same for any state: a round that turns a down replica up while the
-    master is up has passed `AllowRecovery`, after a successful probe. -/
-theorem hard_restore_requires_cooldown_partial (c : Cfg) (hp : c.policy = .hard) (s : St) (now : Int) (p : Probe)
-    (q : SlaveQ) (hdown : s.rep.up = false) (hmu : masterDown c s = false)
+example :
+    let c : Cfg := ⟨true, 30, 12, 0, false, true⟩
+    let evs : List Ev := [.master 1012 ⟨.err, []⟩, .fuse 1013 true true, .replica 1014 ⟨.conn, []⟩ .empty]
+    c.policy = .hard ∧ (run c (St.init 1000) evs).rep.up = false ∧ masterDown c (run c (St.init 1000) evs) = true ∧
+    (run c (St.init 1000) (evs ++ [.replica 1043 ⟨.conn, []⟩ .empty])).rep.up = true ∧ latestFuse c 0 evs = 1013 := by
+  decide
+
+/-- The same for any state: a round that turns a down replica up has passed
+    `AllowRecovery`, after a successful probe — whatever the master's state. -/
+theorem hard_restore_requires_cooldown (c : Cfg) (hp : c.policy = .hard) (s : St) (now : Int) (p : Probe)
+    (q : SlaveQ) (hdown : s.rep.up = false)
     (hup : (tryRecover c s now p q).rep.up = true) :
     now ≥ s.lastFuse + c.cooling ∧ probeOk c p = true := by
   revert hup
-  simp only [tryRecover, hp, hardRecovery_round, hmu, hdown]
+  simp only [tryRecover, hp, hardRecovery_round, hdown]
   cases hok : probeOk c p <;> simp [lastOkAfter]
 
 /-- **Hard policy: restored once the cool-down is over and the round succeeds.**
-    A down replica whose probe succeeds, whose replication check is fine, with
-    the master up and `downAfter > 0`, is marked up as soon as
+    A down replica whose probe succeeds, with `downAfter > 0`, whose replication
+    check is fine or skipped because the master is down, is marked up as soon as
     `now ≥ lastFuseTime + FuseCooldownPeriod`. -/
 theorem hard_restored_after_cooldown (c : Cfg) (hp : c.policy = .hard) (hs : c.sbm < 9223372036854775808)
     (s : St) (now : Int) (p : Probe) (q : SlaveQ)
-    (hok : probeOk c p = true) (hd : 0 < c.downAfter) (hgood : syncSpec c.sbm q = .good)
-    (hmu : masterDown c s = false) (hcool : now ≥ s.lastFuse + c.cooling) :
+    (hok : probeOk c p = true) (hd : 0 < c.downAfter)
+    (hgood : masterDown c s = true ∨ syncSpec c.sbm q = .good)
+    (hcool : now ≥ s.lastFuse + c.cooling) :
     (tryRecover c s now p q).rep.up = true := by
-  have ha := syncSpec_good_alive c.sbm q true hs hgood
-  simp only [tryRecover, hp, hardRecovery_round, hmu, hok, lastOkAfter]
+  have ha : syncAlive c s true q = true := by
+    rcases hgood with h | h
+    · simp [syncAlive, h]
+    · simp [syncAlive, syncSpec_good_alive c.sbm q true hs h]
+  simp only [tryRecover, hp, hardRecovery_round, hok, lastOkAfter]
   cases hu : s.rep.up <;> simp [ha] <;> omega
 
 example : ∃ (c : Cfg) (s : St), c.policy = .hard ∧ c.sbm < 9223372036854775808 ∧ probeOk c ⟨.conn, []⟩ = true ∧
-    0 < c.downAfter ∧ syncSpec c.sbm .empty = .good ∧ masterDown c s = false ∧ s.rep.up = false ∧
+    0 < c.downAfter ∧ (masterDown c s = true ∨ syncSpec c.sbm .empty = .good) ∧ s.rep.up = false ∧
     (1040 : Int) ≥ s.lastFuse + c.cooling :=
   ⟨⟨true, 30, 12, 5, false, true⟩, { St.init 1000 with rep := ⟨false, 1000⟩, lastFuse := 1004 },
-   by decide, by decide, by decide, by decide, by decide, by decide, by decide, by decide⟩
+   by decide, by decide, by decide, by decide, by decide, by decide, by decide⟩
 
 /-- A firing of the breaker takes the replica down and restarts the cool-down. -/
 theorem hard_fuse_takes_down (c : Cfg) (hp : c.policy = .hard) (s : St) (now : Int) :
@@ -453,16 +485,15 @@ theorem hard_fuse_takes_down (c : Cfg) (hp : c.policy = .hard) (s : St) (now : I
 
 /-- **Gradual policy: restored only when the count is used up.**  For any state,
     whatever the master's state: a round that turns a down replica up found
-    `consecutiveSuccessCheckCount ≤ 0`, after a successful probe, with the
-    master up; and it records the recovery time. -/
+    `consecutiveSuccessCheckCount ≤ 0`, after a successful probe; and it records
+    the recovery time. -/
 theorem gradual_restored_only_at_zero (c : Cfg) (hp : c.policy = .gradual) (s : St) (now : Int) (p : Probe)
     (q : SlaveQ) (hdown : s.rep.up = false) (hup : (tryRecover c s now p q).rep.up = true) :
-    s.cscc ≤ 0 ∧ probeOk c p = true ∧ masterDown c s = false ∧ (tryRecover c s now p q).lastRec = now := by
+    s.cscc ≤ 0 ∧ probeOk c p = true ∧ (tryRecover c s now p q).lastRec = now := by
   revert hup
   simp only [tryRecover, hp, gradualRecovery_round, hdown]
-  cases hok : probeOk c p <;> cases hmd : masterDown c s <;>
-    cases hal : checkSlaveSyncStatus true c.sbm q <;>
-    simp [lastOkAfter, gradualAsks, hok, hmd, hdown, hal, checkSlaveSyncStatus_noconn]
+  cases hok : probeOk c p <;> cases hsa : syncAlive c s true q <;>
+    simp [lastOkAfter, gradualAsks, hok, hdown, hsa, syncAlive_noconn]
   intro h1 h2
   simp [h2]
   omega
@@ -487,24 +518,30 @@ theorem gradual_fuse_long_after_recovery_resets (c : Cfg) (hp : c.policy = .grad
   have hb : ¬ (now - s.lastRec ≤ pingPeriod * 2) := by omega
   simp [tryFuse_eq, fuseFires, hp, hup, hb]
 
-/-- A fully successful replica round: probe passes, replication check passes. -/
-def goodRound (c : Cfg) : Ev → Bool
-  | .replica _ p q => probeOk c p && checkSlaveSyncStatus true c.sbm q
+/-- A fully successful replica round in state `s`: the probe passes and the
+    replication check passes or is skipped because the master is down. -/
+def goodRound (c : Cfg) (s : St) : Ev → Bool
+  | .replica _ p q => probeOk c p && syncAlive c s true q
   | _ => false
+
+theorem goodRound_master (c : Cfg) (s s' : St) (e : Ev) (h : s'.master = s.master) :
+    goodRound c s' e = goodRound c s e := by
+  cases e <;> simp [goodRound, syncAlive, masterDown, h]
 
 /-- **Gradual policy: the countdown.**  A down replica with
     `consecutiveSuccessCheckCount = k₀` stays down through any `k ≤ k₀` fully
-    successful rounds (whenever they happen), each using up one unit. -/
+    successful rounds (whenever they happen, master up or down), each using up
+    one unit. -/
 theorem gradual_countdown (c : Cfg) (hp : c.policy = .gradual) (hd : 0 < c.downAfter) :
-    ∀ (evs : List Ev) (s : St), (∀ e ∈ evs, goodRound c e = true) → s.rep.up = false → masterDown c s = false →
+    ∀ (evs : List Ev) (s : St), (∀ e ∈ evs, goodRound c s e = true) → s.rep.up = false →
       (evs.length : Int) ≤ s.cscc →
       (run c s evs).rep.up = false ∧ (run c s evs).cscc = s.cscc - evs.length ∧
-      masterDown c (run c s evs) = false ∧ (run c s evs).erc = s.erc := by
+      (run c s evs).master = s.master ∧ (run c s evs).erc = s.erc := by
   intro evs
   induction evs with
-  | nil => intro s _ h1 h2 _; simp [run, h1, h2]
+  | nil => intro s _ h1 _; simp [run, h1]
   | cons e es ih =>
-    intro s hg hdown hmu hlen
+    intro s hg hdown hlen
     have hge := hg e (by simp)
     cases e with
     | replica now p q =>
@@ -513,14 +550,16 @@ theorem gradual_countdown (c : Cfg) (hp : c.policy = .gradual) (hd : 0 < c.downA
       simp only [List.length_cons] at hlen
       have hpos : s.cscc > 0 := by omega
       have hstep : (step c s (.replica now p q)).rep.up = false ∧ (step c s (.replica now p q)).cscc = s.cscc - 1 ∧
-          masterDown c (step c s (.replica now p q)) = false ∧ (step c s (.replica now p q)).erc = s.erc := by
-        simp only [step, tryRecover, hp, gradualRecovery_round, masterDown] at hmu ⊢
-        simp [hok, hal, hdown, hmu, lastOkAfter, gradualAsks, masterDown, hd, hpos]
-      have := ih (step c s (.replica now p q)) (fun e he => hg e (by simp [he])) hstep.1 hstep.2.2.1
+          (step c s (.replica now p q)).master = s.master ∧ (step c s (.replica now p q)).erc = s.erc := by
+        simp only [step, tryRecover, hp, gradualRecovery_round]
+        simp [hok, hal, hdown, lastOkAfter, gradualAsks, hd, hpos]
+      have := ih (step c s (.replica now p q))
+        (fun e he => by rw [goodRound_master c s _ e hstep.2.2.1]; exact hg e (by simp [he])) hstep.1
         (by rw [hstep.2.1]; omega)
       simp only [run]
-      refine ⟨this.1, ?_, this.2.2.1, ?_⟩
+      refine ⟨this.1, ?_, ?_, ?_⟩
       · rw [this.2.1, hstep.2.1]; simp only [List.length_cons]; omega
+      · rw [this.2.2.1, hstep.2.2.1]
       · rw [this.2.2.2, hstep.2.2.2]
     | master => simp [goodRound] at hge
     | fuse => simp [goodRound] at hge
@@ -528,13 +567,13 @@ theorem gradual_countdown (c : Cfg) (hp : c.policy = .gradual) (hd : 0 < c.downA
 
 /-- … and the next fully successful round after the count is used up marks it up. -/
 theorem gradual_restored_after_countdown (c : Cfg) (hp : c.policy = .gradual) (hd : 0 < c.downAfter)
-    (s : St) (now : Int) (p : Probe) (q : SlaveQ) (hg : goodRound c (.replica now p q) = true)
-    (hdown : s.rep.up = false) (hmu : masterDown c s = false) (hz : s.cscc ≤ 0) :
+    (s : St) (now : Int) (p : Probe) (q : SlaveQ) (hg : goodRound c s (.replica now p q) = true)
+    (hdown : s.rep.up = false) (hz : s.cscc ≤ 0) :
     (tryRecover c s now p q).rep.up = true ∧ (tryRecover c s now p q).lastRec = now := by
   simp only [goodRound, Bool.and_eq_true] at hg
   obtain ⟨hok, hal⟩ := hg
   simp only [tryRecover, hp, gradualRecovery_round]
-  simp [hok, hal, hdown, hmu, lastOkAfter, gradualAsks, hd, hz]
+  simp [hok, hal, hdown, lastOkAfter, gradualAsks, hd, hz]
 
 /-- **A failed probe re-arms the count** ("consecutive"): a down replica whose
     probe fails needs `penalty errorRecoveryCount` successful rounds again. -/
@@ -542,24 +581,37 @@ theorem gradual_failed_probe_rearms (c : Cfg) (hp : c.policy = .gradual) (s : St
     (q : SlaveQ) (hdown : s.rep.up = false) (hfail : probeOk c p = false) :
     (tryRecover c s now p q).cscc = penalty s.erc ∧ (tryRecover c s now p q).rep.up = false := by
   simp only [tryRecover, hp, gradualRecovery_round]
-  simp [hfail, hdown, checkSlaveSyncStatus_noconn]
+  simp [hfail, hdown, syncAlive_noconn]
 
-example : ∃ c : Cfg, c.policy = .gradual ∧ 0 < c.downAfter ∧
-    goodRound c (.replica 1004 ⟨.conn, []⟩ (.row (.u64 0) (.str "Yes") (.str "Yes"))) = true :=
-  ⟨⟨true, 0, 12, 5, false, true⟩, by decide, by decide, by decide⟩
+example : ∃ (c : Cfg) (s : St), c.policy = .gradual ∧ 0 < c.downAfter ∧
+    goodRound c s (.replica 1004 ⟨.conn, []⟩ (.row (.u64 0) (.str "Yes") (.str "Yes"))) = true ∧
+    masterDown c s = false :=
+  ⟨⟨true, 0, 12, 5, false, true⟩, St.init 1000, by decide, by decide, by decide, by decide⟩
 
-/-! ### witness: the listed class on the model of the pinned code -/
+/-- … also during a master outage, where the replication answer is not looked at. -/
+example : ∃ (c : Cfg) (s : St), c.policy = .gradual ∧ 0 < c.downAfter ∧
+    goodRound c s (.replica 1004 ⟨.conn, []⟩ (.row (.u64 9) (.str "No") (.str "Yes"))) = true ∧
+    masterDown c s = true :=
+  ⟨⟨true, 0, 12, 5, false, true⟩, { St.init 1000 with master := ⟨false, 1000⟩ }, by decide, by decide, by decide, by decide⟩
 
-/-- Hard policy with a 30 s cool-down: the master is marked down at 1012, the
-    breaker takes the replica down at 1013, and the replica round at 1014 —
-    one second into the cool-down — marks it up again. -/
-theorem hard_restored_in_cooldown_master_down_witness :
-    let c : Cfg := ⟨true, 30, 12, 0, false, true⟩
-    let evs : List Ev := [.master 1012 ⟨.err, []⟩, .fuse 1013 true true, .replica 1014 ⟨.conn, []⟩ .empty]
+/-! ### the repaired class on its old failing input -/
+
+/-- The history on which the pinned code violated the property (class
+    `hard-restored-in-cooldown-master-down`, repaired by fix 5e8b660): hard
+    policy with a 30 s cool-down, the master is marked down at 1012, the
+    breaker takes the replica down at 1013.  The replica round at 1014 — one
+    second into the cool-down — now leaves it down; the round at 1043 restores
+    it; the judge accepts this and rejects the old behaviour. -/
+theorem hard_cooldown_master_down_repaired :
+    let c : Cfg := ⟨true, 30, 32, 0, false, true⟩
+    let evs : List Ev := [.master 1032 ⟨.err, []⟩, .fuse 1033 true true, .replica 1034 ⟨.conn, []⟩ .empty,
+                          .replica 1063 ⟨.conn, []⟩ .empty]
     c.policy = .hard ∧
-    (trace c (St.init 1000) evs).map St.obs = [⟨true, false⟩, ⟨false, false⟩, ⟨true, false⟩] ∧
-    latestFuse c 0 evs = 1013 ∧
-    judge27 c (G27.init 1000) evs ((trace c (St.init 1000) evs).map St.obs) = [.hardRestoredInCooldownMasterDown] := by
+    (trace c (St.init 1000) evs).map St.obs = [⟨true, false⟩, ⟨false, false⟩, ⟨false, false⟩, ⟨true, false⟩] ∧
+    latestFuse c 0 evs = 1033 ∧
+    judge27 c (G27.init 1000) evs ((trace c (St.init 1000) evs).map St.obs) = [] ∧
+    judge27 c (G27.init 1000) evs [⟨true, false⟩, ⟨false, false⟩, ⟨true, false⟩, ⟨true, false⟩]
+      = [.hardRestoredInCooldownMasterDown] := by
   decide
 
 end GaeaVerif.C27
